@@ -31,7 +31,7 @@ LEVEL_NOTE = ("Trusted base: sim/world.py (switches only at synchronisation poin
 QUICK_WORKERS = 4
 WORKERS = 14
 
-FLAVOURS = ('reconnect', 'replace', 'control', 'requests', 'trash', 'two_sessions')
+FLAVOURS = ('reconnect', 'replace', 'control', 'requests', 'trash', 'two_sessions', 'keyspace_sync')
 INF = 10 ** 9
 
 K_TRASH = "trashed-connection-never-closed-by-hostconnection-shutdown"
@@ -96,6 +96,7 @@ def run_history(seed, variant, k):
         env.conn_class.max_in_flight = 6
         env.conn_class.orphaned_threshold = 3
     plan = {}                      # uid -> action
+    hold_use = {}                  # address -> {'from_conn': id, 'delays': [(keyspace, delay)]}  answers to USE on new pool connections kept back
     hold_handshake = {}            # address -> [count, delay, op]   keep the answer to OPTIONS/STARTUP back for `delay` seconds
     convict = {'127.0.0.1': True, '127.0.0.2': True}
     S = {'cluster': None, 'session': None, 'session2': None, 'stop': False, 'done': False, 'log': [], 'futures': []}
@@ -110,7 +111,7 @@ def run_history(seed, variant, k):
     def behaviour(node, cstate, req):
         a = node.address
         hh = hold_handshake.get(a)
-        if hh and hh[0] > 0 and req['op'] == hh[2]:
+        if hh and hh[0] > 0 and req['op'] == hh[2] and (len(hh) < 4 or cstate.conn.sim_creator == hh[3]):
             hh[0] -= 1
             r = node.default_reaction(cstate, req)
             timed_release(req, hh[1])
@@ -119,6 +120,15 @@ def run_history(seed, variant, k):
             return None
         uid = uid_of(req['query'])
         if uid is None:
+            hu = hold_use.get(a)
+            if hu and cstate.conn.sim_creator == 'pool-init' and cstate.conn.sim_id >= hu['from_conn']:
+                for ks, delay in hu['delays']:
+                    if ('"%s"' % ks) in req['query'] and req['query'].lstrip().upper().startswith('USE'):
+                        # the per-connection USE of a pool that is being built is answered late
+                        r = node.default_reaction(cstate, req)
+                        timed_release(req, delay)
+                        S['use_held'] = S.get('use_held', 0) + 1
+                        return ('hold', r[1])
             return None
         act = plan.get(uid, 'rows')
         r = node.rows(cstate, req, ECHO_COLS, [[uid, a]], 'ks', 't')
@@ -212,7 +222,10 @@ def run_history(seed, variant, k):
             S['cluster'] = cluster
             if S['stop']:
                 return
-            session = cluster.connect(wait_for_all_pools=(flavour != 'requests'))
+            if flavour == 'keyspace_sync':
+                session = cluster.connect('ks1', wait_for_all_pools=True)
+            else:
+                session = cluster.connect(wait_for_all_pools=(flavour != 'requests'))
             S['session'] = session
             S['connect_steps'] = ch.n
             if S['stop']:
@@ -282,6 +295,32 @@ def run_history(seed, variant, k):
                     return
                 n1.up = True
                 sleep(0.8)
+            elif flavour == 'keyspace_sync':
+                # node 2 goes away and is reconnected; while on_up builds the new pool (its USE "ks1" is answered late) the session keyspace is
+                # switched on the other pool, so the pool task has to re-sync the new pool (USE "ks2", answered late as well) before installing it
+                n2.up = False
+                request(session, host=h2, act='reset')
+                if S['stop']:
+                    return
+                sleep(0.7)
+                n2.up = True
+                hold_use['127.0.0.2'] = {'from_conn': len(env.net.conns), 'delays': [('ks1', 0.3), ('ks2', 0.4)]}
+                if S['stop']:
+                    return
+                sleep(0.4)                 # reconnector attempt at +1.0 has succeeded, on_up's pool waits for USE "ks1"
+                if S['stop']:
+                    return
+                try:
+                    session.set_keyspace('ks2')
+                except Exception as e:
+                    S['log'].append(('set_keyspace-raised', type(e).__name__))
+                if S['stop']:
+                    return
+                sleep(1.0)
+                if S['stop']:
+                    return
+                request(session, host=h2)
+                sleep(0.3)
             elif flavour == 'trash':
                 # three requests never answered time out on the client: orphan threshold reached, the next borrow replaces the connection
                 # while a fourth request is still in flight on the old one -> the old connection goes to the pool's trash
@@ -321,6 +360,7 @@ def run_history(seed, variant, k):
                 R['info']['creators'] = sorted(set(c.sim_creator for c in env.net.conns))
                 R['info']['log'] = list(S['log'])
                 R['info']['connect_steps'] = S.get('connect_steps', 0)
+                R['info']['use_held'] = S.get('use_held', 0)
             if S['cluster'] is not None:
                 S['cluster'].shutdown()
             w.settle(until=w.now + 30.0)
@@ -546,7 +586,7 @@ def run(ctx):
     from vlib.run import Inconclusive
     from sim.world import WorldLimit
     ctx.rule = ("a case is (history variant, injection step k): variant = what happens (reconnect / replace / control / requests / trash / "
-                "two_sessions) x protocol (v4 HostConnection, v2 HostConnectionPool) x which shutdown (Cluster / Session); for each variant all k in "
+                "two_sessions / keyspace_sync) x protocol (v4 HostConnection, v2 HostConnectionPool) x which shutdown (Cluster / Session); for each variant all k in "
                 "0..N are run (N = scheduling steps of the uninterrupted history); distinct by (variant, k); non-trivial = the cluster object existed "
                 "at step k")
     ctx.assume("requests that were in flight when shutdown was called are not judged (they carry finite timeouts); only a request issued after the call returned must not stay pending")
@@ -556,7 +596,11 @@ def run(ctx):
     # quick: each worker enumerates one variant per round, rotated by the seed so that seeds 1..5 cover all of them; thorough: all variants over the workers
     order = list(range(len(allv)))
     first = [allv.index(('reconnect', 4, 'session')), allv.index(('control', 4, 'cluster')), allv.index(('replace', 2, 'cluster')),
-             allv.index(('trash', 4, 'cluster'))]
+             allv.index(('trash', 4, 'cluster')),
+             allv.index(('keyspace_sync', 4, 'session')), allv.index(('keyspace_sync', 2, 'cluster')), allv.index(('replace', 4, 'session')),
+             allv.index(('reconnect', 2, 'cluster'))]
+    if ctx.quick:
+        first = first[:8]
     rest = [i for i in order if i not in first]
     rot = (ctx.seed - 1) % max(1, len(rest))
     rest = rest[rot:] + rest[:rot]
@@ -566,6 +610,9 @@ def run(ctx):
     rounds = 0
     complete = 0
     while ctx.time_left(budget) > 0:
+        # measure every variant of this worker, then inject: first at the steps after connect() of each variant in turn (the connect phase is the
+        # same in every variant), then at the connect-phase steps
+        plan_post, plan_pre, left = [], [], {}
         for variant in mine:
             if ctx.time_left(budget) < 0:
                 break
@@ -580,15 +627,19 @@ def run(ctx):
             N = R0['steps']
             ctx.count("variants_started")
             ctx.count("steps_in_uninterrupted_histories", N)
+            if variant[0] == 'keyspace_sync':
+                ctx.count("keyspace_resync_variants_with_late_use_answers", 1 if R0['info'].get('use_held', 0) >= 2 else 0)
             ks = list(range(0, N + 1))
-            random.Random(seed).shuffle(ks)         # a partial enumeration (time budget) is spread evenly ...
-            c0 = R0['info'].get('connect_steps', 0)  # ... and starts with the steps after connect() (the connect phase is the same in every variant)
-            ks = [k for k in ks if k >= c0] + [k for k in ks if k < c0]
-            done_all = True
+            random.Random(seed).shuffle(ks)         # a partial enumeration (time budget) is spread evenly
+            c0 = R0['info'].get('connect_steps', 0)
+            plan_post.append((variant, seed, N, [k for k in ks if k >= c0]))
+            plan_pre.append((variant, seed, N, [k for k in ks if k < c0]))
+            left[(variant, seed)] = N + 1
+        for variant, seed, N, ks in plan_post + plan_pre:
             for k in ks:
                 if ctx.time_left(budget) < 0:
-                    done_all = False
                     break
+                left[(variant, seed)] -= 1
                 try:
                     R, env = run_history(seed, variant, k)
                 except WorldLimit:
@@ -625,7 +676,8 @@ def run(ctx):
                     raise Inconclusive("exception escaped a sim thread in %r seed %d k=%d: %r" % (variant, seed, k, [(e[0], repr(e[1])) for e in env.world.errors[:2]]))
                 if not R['viol'] and len(ctx.samples) < 4 and k % 37 == 5:
                     ctx.sample({"variant": variant, "k": k, "N": N, "info": info})
-            if done_all:
+        for (variant, seed), n_left in left.items():
+            if n_left == 0:
                 complete += 1
                 ctx.count("variants_enumerated_completely")
                 ctx.count("variant_complete: %s v%d %s" % variant)
